@@ -142,6 +142,63 @@ fn encode_k(case: &Value, inputs: &Value) -> Value {
     json!({"bytes": to_json_bytes(&bytes), "clvmr_bytes": to_json_bytes(&cl), "back": back})
 }
 
+// rich SExp from json spelling
+pub fn rich_from_json(v: &Value) -> Rc<chialisp::compiler::sexp::SExp> {
+    use chialisp::compiler::sexp::SExp as R;
+    use chialisp::compiler::srcloc::Srcloc;
+    let l = Srcloc::start("*t*");
+    if v.get("nil").is_some() {
+        Rc::new(R::Nil(l))
+    } else if let Some(i) = v.get("int") {
+        let n: num_bigint::BigInt = i.as_str().unwrap().parse().unwrap();
+        Rc::new(R::Integer(l, n))
+    } else if let Some(a) = v.get("atom") {
+        Rc::new(R::Atom(l, bytes_of(a)))
+    } else if let Some(a) = v.get("qs") {
+        Rc::new(R::QuotedString(l, b'"', bytes_of(a)))
+    } else {
+        let c = &v["cons"];
+        Rc::new(R::Cons(l, rich_from_json(&c[0]), rich_from_json(&c[1])))
+    }
+}
+
+pub fn env_rich(v: &Value) -> Rc<chialisp::compiler::sexp::SExp> {
+    use chialisp::compiler::sexp::SExp as R;
+    use chialisp::compiler::srcloc::Srcloc;
+    let l = Srcloc::start("*t*");
+    if let Some(p) = v.get("p") {
+        Rc::new(R::Cons(l, env_rich(&p[0]), env_rich(&p[1])))
+    } else {
+        let b = bytes_of(v);
+        if b.is_empty() { Rc::new(R::Nil(l)) } else { Rc::new(R::Atom(l, b)) }
+    }
+}
+
+// stepping evaluator vs clvmr on the same (program, env)
+fn run_both_k(_case: &Value, inputs: &Value) -> Value {
+    use chialisp::compiler::clvm::{convert_to_clvm_rs, run};
+    use chialisp::compiler::prims::prim_map;
+    use chialisp::classic::clvm_tools::stages::stage_0::TRunProgram;
+    let mut a = Allocator::new();
+    let prog = rich_from_json(&inputs["prog"]);
+    let env = env_rich(&inputs["env"]);
+    let runner = Rc::new(DefaultProgramRunner::new());
+    let stepper = match run(&mut a, runner.clone(), prim_map(), prog.clone(), env.clone(), None, Some(100000)) {
+        Ok(v) => match convert_to_clvm_rs(&mut a, v) {
+            Ok(n) => json!({"ok": tree_to_json(&a, n)}),
+            Err(_) => json!({"err": true}),
+        },
+        Err(_) => json!({"err": true}),
+    };
+    let p = convert_to_clvm_rs(&mut a, prog).unwrap();
+    let e = convert_to_clvm_rs(&mut a, env).unwrap();
+    let cl = match runner.run_program(&mut a, p, e, None) {
+        Ok(r) => json!({"ok": tree_to_json(&a, r.1)}),
+        Err(_) => json!({"err": true}),
+    };
+    json!({"stepper": stepper, "clvmr": cl})
+}
+
 // assemble(text) -> tree (used to evaluate constant patterns natively)
 fn assemble_k(_case: &Value, inputs: &Value) -> Value {
     let mut a = Allocator::new();
@@ -156,6 +213,7 @@ pub fn dispatch(kernel: &str, case: &Value, inputs: &Value) -> Value {
         "assemble" => assemble_k(case, inputs),
         "int_from_bytes" => int_from_bytes_k(case, inputs),
         "decode" => decode_k(case, inputs),
+        "run_both" => run_both_k(case, inputs),
         "encode" => encode_k(case, inputs),
         "path_optimizer" => path_optimizer_k(case, inputs),
         "nodepath" => nodepath(case, inputs),
